@@ -426,13 +426,13 @@ func C13() *vk.Check {
 	return &vk.Check{
 		ID:    "C13",
 		Level: "fault_enumeration",
-		Rule: "exhaustive enumeration of client-legal operation sequences over {Put k1, Put k2, Get k1, Get k2, Get never-written, Get with language (translation missing: two queries / present: one query), Start, Stop, Abort} of length<=4 (quick) / <=5 exhaustive plus 400k PRNG sequences of length 6..8 (thorough), each closed by Close, x every choice of zero, one or two failing primitive driver calls (begin, exec, query, row fetch (Next), Scan, commit) among those the sequence makes. " +
+		Rule: "exhaustive enumeration of client-legal operation sequences over {Put k1, Put k2, Get k1, Get k2, Get never-written, Get with language (translation missing: two queries / present: one query), Start, Stop, Abort} of length<=4 (quick) / <=5 exhaustive plus 400k PRNG sequences of length 6..8 (thorough), each closed by Close, x every choice of zero, one or two failing primitive driver calls (begin, exec, query, row fetch (Next), Scan, commit, rollback) among those the sequence makes. " +
 			"Start only when the client has no transaction, Stop/Abort only inside the client's own transaction. distinct = (sequence, fault set), distinct by construction; non-trivial = at least one fault fired or the sequence contains an explicit transaction.",
 		Assumptions: []string{
 			"trusted base: pgfake's model of Postgres/pgx (aborted-transaction state, ErrTxCommitRollback, ErrTxClosed, conn busy while a result set is open)",
 			"a transaction in which an operation returned an error (fault or not-found) is 'dirty': the fate of its writes is don't-care; redundant Commit/Rollback on a finished transaction is harmless in pgx and only counted",
 			"a failed implicit single Put may or may not have taken effect (failed commit is indistinguishable to the client)",
-			"rollback itself is never made to fail",
+			"a failing Rollback follows pgx: the transaction is closed and its writes are gone after any Rollback attempt; Abort has no way to report it",
 		},
 		MinEvaluations: 1000,
 		Shards:         func(string) int { return 16 },
